@@ -80,10 +80,13 @@ Fixpoint skip_space (buf : list tok) : list tok :=
   end.
 
 (* the skip behind a control word (Parser.expand_macro): like skip_space, but
-   it stops at a language token, which must not be lost *)
+   it stops at a language token, which must not be lost, and at an action
+   token: that is where a macro argument ended, the blank behind its closing
+   brace counts *)
 Fixpoint skip_ctl (buf : list tok) : list tok :=
   match buf with
-  | t :: buf' => if buf_is_space t && negb (is_lang t) then skip_ctl buf' else buf
+  | t :: buf' => if buf_is_space t && negb (is_lang t) && negb (is_action t)
+                then skip_ctl buf' else buf
   | [] => []
   end.
 
